@@ -16,7 +16,9 @@ BOUNDS_C01 = ('H-IND: one inductive step from every history/file state satisfyin
 
 BOUNDS_C19 = {
     'quick': 'H-SIZE: chains, layered graphs (each job depends on two jobs of the previous layer) and fan-out/fan-in graphs; all 27 periodic kind '
-             'patterns of period 3 at 8-9 jobs; 600 jobs (chain 600, layers 20x30, fan 600) under 3-5 kind patterns each; cascade shapes: first build, '
+             'patterns of period 3 at 8-9 jobs; 600 jobs (chain 600, layers 20x30, fan 600) under 3-5 kind patterns each; chain 2000 (re-evaluation only, '
+             'started from a directly constructed built history); an Output + 300 chained Ephemerals + Output; 48 fully connected layers of 2 Ephemerals and 30 '
+             'layers of 3 between Outputs; Ephemeral-only tails (2x48, 1x600, 3x20); cascade shapes: first build, '
              'first build with root failure, abort after 1 start and midway, re-evaluation of the built project with the first/last Output result '
              'symbolically deleted and the first Always / first re-executed job reporting a symbolic new value (covers up-to-date re-run and single '
              'invalidation at either end), re-evaluation with root failure and with abort; sequential driver',
@@ -28,7 +30,7 @@ BOUNDS_HEVAL = {
              'cleanup-acknowledgement delay, every solver-feasible value of the symbolic records/presence bits/outputs/comparison). Universes: '
              '(1) all DAGs on <=3 jobs x all 3^N kind assignments from every well-formed symbolic history, under S-test (string inequality, real MIR of '
              'StrategyForTesting) and S-reld (comparison = arbitrary equivalence relation, possibly different per consumer); (2) 6 curated 4-job shapes and a '
-             'seeded sample of 60 of the 5184 four-job graphs, same symbolic history, S-test; (3) H-BUILT (project completely built before; symbolic: presence '
+             'seeded sample of 20 of the 5184 four-job graphs, same symbolic history, S-test; (3) H-BUILT (project completely built before; symbolic: presence '
              'of every result file, every reported output): 15 curated 4-7 job shapes, a seeded sample of 300 four-job graphs and of 600 of the 1582 '
              'chain-family shapes (<= 6 jobs; all shapes with >= 3 Ephemerals), S-test; 80 of them also under S-reld. The sample depends on VERIF_SEED.',
     'thorough': 'quick universes with S-rel and S-prod (production shortcut last==current) added for N<=3; 600 four-job graphs from the symbolic history; '
